@@ -409,10 +409,20 @@ func (vc *VC) symbolsOf(t string, out map[string]bool) {
 	}
 }
 
+// isControl: path-condition constants do not make an assumption relevant by themselves.
+func isControl(sym string) bool {
+	return strings.HasPrefix(sym, "arg_") || strings.HasPrefix(sym, "reach!") || strings.HasPrefix(sym, "live!") || strings.HasPrefix(sym, "exit!") || strings.HasPrefix(sym, "panics!") || strings.HasPrefix(sym, "nalloc!")
+}
+
+func isHeapSym(s string) bool {
+	return strings.HasPrefix(s, "H_") || strings.HasPrefix(s, "E_") || strings.HasPrefix(s, "MH_") || strings.HasPrefix(s, "MV_") || strings.HasPrefix(s, "ML_")
+}
+
 // relevant selects the assumptions in the cone of influence of the goal: definitions of
-// symbols that are reached, and other assumptions that share a symbol with what is reached.
-// Dropping assumptions can only make a goal harder to prove, never wrongly provable.
-func (vc *VC) relevant(o *Obl) []bool {
+// symbols that are reached, and other assumptions that share a (non-control) symbol with what is
+// reached, up to maxHops rounds (0 = until nothing changes). Dropping assumptions can only make
+// a goal harder to prove, never wrongly provable.
+func (vc *VC) relevant(o *Obl, maxHops int) []bool {
 	n := o.NAss
 	if vc.assSyms == nil {
 		vc.assSyms = map[int]map[string]bool{}
@@ -439,48 +449,89 @@ func (vc *VC) relevant(o *Obl) []bool {
 	vc.symbolsOf(o.Guard.S, R)
 	vc.symbolsOf(o.Goal.S, R)
 	inc := make([]bool, n)
-	for changed := true; changed; {
-		changed = false
+	// definitions are followed eagerly
+	follow := func() {
+		for changed := true; changed; {
+			changed = false
+			for i := 0; i < n; i++ {
+				if inc[i] {
+					continue
+				}
+				if d, isDef := vc.assDef[i]; isDef && R[d] {
+					inc[i] = true
+					changed = true
+					for s := range vc.assSyms[i] {
+						R[s] = true
+					}
+				}
+			}
+		}
+	}
+	follow()
+	for hop := 0; maxHops == 0 || hop < maxHops; hop++ {
+		var add []int
 		for i := 0; i < n; i++ {
 			if inc[i] {
 				continue
 			}
+			if _, isDef := vc.assDef[i]; isDef {
+				continue
+			}
 			syms := vc.assSyms[i]
-			if d, isDef := vc.assDef[i]; isDef {
-				if !R[d] {
+			hit := false
+			heapSyms := 0
+			for s := range syms {
+				if !isHeapSym(s) {
 					continue
 				}
-			} else {
-				if len(syms) == 0 {
-					inc[i] = true
-					continue
+				heapSyms++
+				if R[s] {
+					hit = true
+					break
 				}
-				hit := false
+			}
+			if !hit && heapSyms == 0 {
+				// no heap at all: a fact about values; relevant when it shares a value symbol
 				for s := range syms {
-					if R[s] {
+					if !isControl(s) && R[s] {
 						hit = true
 						break
 					}
 				}
-				if !hit {
-					continue
+				if len(syms) == 0 {
+					hit = true
 				}
 			}
-			inc[i] = true
-			changed = true
-			for s := range syms {
-				R[s] = true
+			if hit {
+				add = append(add, i)
 			}
+		}
+		if len(add) == 0 {
+			break
+		}
+		grew := false
+		for _, i := range add {
+			inc[i] = true
+			for s := range vc.assSyms[i] {
+				if !R[s] {
+					R[s] = true
+					grew = true
+				}
+			}
+		}
+		follow()
+		if !grew {
+			break
 		}
 	}
 	return inc
 }
 
 // script renders the SMT-LIB script of an obligation.
-func (vc *VC) script(o *Obl, seed int) string {
+func (vc *VC) script(o *Obl, hops int) string {
 	var sb strings.Builder
 	sb.WriteString(smtPrelude)
-	_ = seed // the proof search is deterministic; the seed is not passed to the solvers
+
 	for _, d := range vc.S.decls {
 		sb.WriteString(d)
 		sb.WriteByte('\n')
@@ -489,7 +540,7 @@ func (vc *VC) script(o *Obl, seed int) string {
 		sb.WriteString(d)
 		sb.WriteByte('\n')
 	}
-	inc := vc.relevant(o)
+	inc := vc.relevant(o, hops)
 	for i, a := range vc.asserts[:o.NAss] {
 		if !inc[i] {
 			continue
